@@ -2401,6 +2401,10 @@ impl Cpu {
                     }
                 }
             }
+            14 if recur && r != 15 => {
+                // An expanded-type prefix may not follow another one.
+                return Err(CpuError::Exception(CpuException::IllegalOpcode));
+            }
             14 => match r {
                 0 => self.decode_descriptor_operand(bus, index, dtype, Some(Data::UWord), true)?,
                 2 => self.decode_descriptor_operand(bus, index, dtype, Some(Data::UHalf), true)?,
